@@ -21,7 +21,7 @@ Proof.
   - intros t Ht. rewrite (R f Hf) in Ht.
     change (get_cell q f t = get_cell q' f t).
     destruct (isact fb f) eqn:Ea.
-    + destruct (C t f Ht Hf) as (i & Hi & Ei). destruct (C' t f Ht Hf) as (i' & Hi' & Ei').
+    + destruct (C t f Ht Ea) as (i & Hi & Ei). destruct (C' t f Ht Ea) as (i' & Hi' & Ei').
       pose proof (B t f i Ht Ea Hi) as E1. pose proof (B' t f i Ht Ea Hi) as E2.
       rewrite Ei in E1. rewrite Ei' in E2. rewrite E1 in E2. rewrite !is_level_some, Nat.eqb_refl in E2.
       symmetry in E2. apply Nat.eqb_eq in E2. congruence.
